@@ -38,3 +38,12 @@ Example C15_example :
   find_nth [0; 1; 0; -1; 1; 0] 2 (-1) None = [5; 4] /\
   find_first_or_last_n [0; 1; 0; -1; 1; 0] 2 2 (Some [true; true; true; true; true; false]) false = [[0; 2]; [1; 4]].
 Proof. split; reflexivity. Qed.
+
+(* Tie B (pins): the functions this property's models transcribe read, statement by statement, as they did when the models
+   were written against them; Gen/SourcesGen.v is regenerated from /repo on every run (translator/pins.py). *)
+From GL Require Import Gen.SourcesGen Model.Sources Proofs.PinC15.
+Theorem C15_modelled_functions_are_the_source's :
+  gen_src_find_nth = src_find_nth /\
+  gen_src_find_first_or_last_n = src_find_first_or_last_n.
+Proof. exact (conj pin_find_nth pin_find_first_or_last_n). Qed.
+Print Assumptions C15_modelled_functions_are_the_source's.
